@@ -1088,7 +1088,7 @@ def q_slot_update_atomic(o, tier):
     def alpha(c):
         if re.match(r'^DBM::(update_user|store_user|batch_remove_appointments)$', c):
             return 'db_write'
-        if re.match(r'^(?:std::collections::)?HashMap::<(?:UserId|TowerId), UserInfo>::(get_mut|insert)', c):
+        if re.match(r'^(?:std::collections::)?HashMap::<(?:UserId|TowerId), UserInfo>::(get_mut|get|insert|entry)', c):
             return 'mem_access'
         return None
     sk = SK.Skeletons(funcs, idx, teos_lock_name, alpha,
@@ -1154,6 +1154,105 @@ def q_slot_update_atomic(o, tier):
             'witness': {k: [list(e) for e in v[0]] for k, v in names.items()}, 'functions': sorted(short(x) for x in sk.functions_seen)}
 
 
+def _fn_calls(f):
+    return [call_short(b.term['callee']) for b in f.blocks.values() if b.term['kind'] == 'call' and not b.cleanup]
+
+
+def q_wtclient_frames(o, tier):
+    """C05/C18 (structural frame conditions): each WTClient bookkeeping method touches exactly its own table: the set of
+    client-DBM methods it calls is the expected one, so that recording an appointment as accepted / pending / invalid for
+    one tower cannot delete or rewrite another record (the SQL reference counting of delete_pending_appointment removes the
+    shared appointment body when the *last* reference goes: a second, unintended delete destroys another tower's data)."""
+    funcs, idx, t_mir, err = load_mir('watchtower-plugin', 'lib')
+    if funcs is None:
+        return {'verdict': 'inconclusive', 'reason': 'MIR dump failed'}
+    expect = {
+        'add_appointment_receipt': {'store_appointment_receipt'},
+        'add_pending_appointment': {'store_pending_appointment'},
+        'remove_pending_appointment': {'delete_pending_appointment'},
+        'add_invalid_appointment': {'store_invalid_appointment'},
+        'flag_misbehaving_tower': {'store_misbehaving_proof'},
+        'remove_tower': {'remove_tower_record'},
+        'add_update_tower': {'load_tower_record', 'store_tower_record'},
+    }
+    rows, missing = [], []
+    for m, want in expect.items():
+        n = [x for x in funcs if re.match(r'^wt_client::<impl at .*?>::%s$' % m, x)]
+        if len(n) != 1:
+            missing.append(m)
+            continue
+        got = {c.split('::')[-1] for c in _fn_calls(funcs[n[0]]) if c.startswith('DBM::')}
+        rows.append((m, sorted(got), sorted(want)))
+    if missing:
+        return {'verdict': 'inconclusive', 'reason': 'WTClient methods not found: %s' % missing}
+    v, i, dt, out = _exists(rows, lambda r: r[1] != r[2], 'frames')
+    if v == 'inconclusive':
+        return {'verdict': 'inconclusive', 'reason': out[:200]}
+    failed = []
+    if v == 'sat':
+        bad = [r for r in rows if r[1] != r[2]]
+        for r in bad:
+            failed.append({'description': 'WTClient::%s calls the client database methods %s, expected exactly %s' % r,
+                           'function': 'WTClient::%s' % r[0]})
+    return {'verdict': 'fails' if failed else 'holds', 'failed': failed, 'queries': 1, 'solver_s': dt,
+            'witness': {r[0]: r[1] for r in rows}, 'functions': ['watchtower_plugin::wt_client::WTClient::*']}
+
+
+def q_single_height_read(o, tier):
+    """C08 (structural): Watcher::add_appointment reads the tower height exactly once per request; the value stored with the
+    appointment (ExtendedAppointment::new) and the start block of the receipt (AppointmentReceipt::new) are therefore the same
+    number even when a block is connected or disconnected while the request waits for a lock."""
+    funcs, idx, t_mir, err = load_mir('teos')
+    if funcs is None:
+        return {'verdict': 'inconclusive', 'reason': 'MIR dump failed'}
+    n = [x for x in funcs if re.match(r'^watcher::<impl at .*?>::add_appointment$', x)]
+    if len(n) != 1:
+        return {'verdict': 'inconclusive', 'reason': 'add_appointment not found'}
+    f = funcs[n[0]]
+    rows = enum_paths(f, 'bb0')
+    if rows is None:
+        return {'verdict': 'inconclusive', 'reason': 'path explosion'}
+    ok_rows = [r for r in rows if ('call', 'AppointmentReceipt::new') in r]
+    if not ok_rows:
+        return {'verdict': 'inconclusive', 'reason': 'vacuous: no accepting path'}
+    loads = lambda r: sum(1 for e in r if e[0] == 'call' and re.search(r'Atomic(?:U32)?::load$', e[1]))
+    v, i, dt, out = _exists(ok_rows, lambda r: loads(r) != 1 or ('call', 'ExtendedAppointment::new') not in r, 'height')
+    if v == 'inconclusive':
+        return {'verdict': 'inconclusive', 'reason': out[:200]}
+    failed = []
+    if v == 'sat':
+        failed.append({'description': 'an accepted request reads the tower height %d times: the start block in the receipt and the one stored can differ when a block event interleaves' % loads(ok_rows[i]),
+                       'function': 'Watcher::add_appointment', 'schedule': [e[1] for e in ok_rows[i] if e[0] == 'call' and ('load' in e[1] or '::new' in e[1])]})
+    return {'verdict': 'fails' if failed else 'holds', 'failed': failed, 'queries': 1, 'solver_s': dt,
+            'witness': {'accepting_paths': len(ok_rows), 'height_reads_on_first': loads(ok_rows[0])}, 'functions': ['Watcher::add_appointment']}
+
+
+def q_uuid_derivation(o, tier):
+    """C06 (structural): UUID::new hashes the locator followed by the *full* serialised public key of the user
+    (PublicKey::serialize, 33 bytes incl. the parity byte): distinct users get distinct uuids for the same locator."""
+    funcs, idx, t_mir, err = load_mir('teos')
+    if funcs is None:
+        return {'verdict': 'inconclusive', 'reason': 'MIR dump failed'}
+    n = [x for x in funcs if re.match(r'^extended_appointment::<impl at .*?>::new$', x) and funcs[x].params and 'Locator' in funcs[x].params[0][1]]
+    if len(n) != 1:
+        return {'verdict': 'inconclusive', 'reason': 'UUID::new not found (%d)' % len(n)}
+    calls = _fn_calls(funcs[n[0]])
+    key_calls = [c for c in calls if re.search(r'PublicKey::|XOnlyPublicKey::|UserId::', c)]
+    rows = [tuple(key_calls)]
+    good = lambda r: list(r) == ['PublicKey::serialize']
+    if not any('Locator::to_vec' in c or 'Locator' in c for c in calls) or not any('hash' in c.lower() for c in calls):
+        return {'verdict': 'inconclusive', 'reason': 'UUID::new has an unrecognised shape: %s' % calls[:8]}
+    v, i, dt, out = _exists(rows, lambda r: not good(r), 'uuid')
+    if v == 'inconclusive':
+        return {'verdict': 'inconclusive', 'reason': out[:200]}
+    failed = []
+    if v == 'sat':
+        failed.append({'description': 'UUID::new does not hash the full serialised user key (calls on the key: %s): different users can share a uuid' % (key_calls,),
+                       'function': 'UUID::new'})
+    return {'verdict': 'fails' if failed else 'holds', 'failed': failed, 'queries': 1, 'solver_s': dt,
+            'witness': {'calls': calls[:10]}, 'functions': ['extended_appointment::UUID::new']}
+
+
 QUERIES = {
     'lock_order': q_lock_order,
     'api_guard': q_api_guard,
@@ -1168,6 +1267,9 @@ QUERIES = {
     'plugin_send_appointment': q_plugin_send_appointment,
     'retrier_run': q_retrier_run,
     'retry_progress': q_retry_progress,
+    'wtclient_frames': q_wtclient_frames,
+    'single_height_read': q_single_height_read,
+    'uuid_derivation': q_uuid_derivation,
     'plugin_startup_retry': q_plugin_startup_retry,
     'responder_block_order': q_responder_block_order,
 }
